@@ -584,64 +584,44 @@ impl Bmi2StringProcessor {
     #[cfg(target_arch = "x86_64")]
     #[target_feature(enable = "bmi1,bmi2")]
     unsafe fn wildcard_match_bmi2_impl(&self, text: &[u8], pattern: &[u8]) -> bool {
-        // Simplified wildcard matching with BMI2 acceleration
-        // Supports * and ? wildcards
-        
+        // Iterative glob matcher (`*` = any run of characters, `?` = exactly one character)
+        // with backtracking to the most recent `*`.  Text positions only ever advance by whole
+        // UTF-8 characters, so the answer is the one the scalar matcher gives on `char`s.
+        let next_char = |i: usize| {
+            let mut j = i + 1;
+            while j < text.len() && (text[j] & 0xC0) == 0x80 {
+                j += 1;
+            }
+            j
+        };
+
         let mut text_idx = 0;
         let mut pattern_idx = 0;
+        // (pattern index of the last `*`, text index its expansion currently ends at)
+        let mut last_star: Option<(usize, usize)> = None;
 
-        while pattern_idx < pattern.len() && text_idx < text.len() {
-            match pattern[pattern_idx] {
-                b'*' => {
-                    // Skip consecutive asterisks
-                    while pattern_idx < pattern.len() && pattern[pattern_idx] == b'*' {
-                        pattern_idx += 1;
-                    }
-                    
-                    if pattern_idx == pattern.len() {
-                        return true; // Pattern ends with *, matches everything
-                    }
-                    
-                    // Find next matching character using BMI2
-                    let next_char = pattern[pattern_idx];
-                    while text_idx < text.len() {
-                        let current_char = if text_idx + 8 <= text.len() {
-                            let chunk = unsafe { std::ptr::read_unaligned(text.as_ptr().add(text_idx) as *const u64) };
-                            Bmi2BextrOps::extract_bits_bextr(chunk, 0, 8) as u8
-                        } else {
-                            text[text_idx]
-                        };
-                        
-                        if current_char == next_char {
-                            break;
-                        }
-                        text_idx += 1;
-                    }
-                }
-                b'?' => {
-                    // Single character wildcard
-                    text_idx += 1;
-                    pattern_idx += 1;
-                }
-                c => {
-                    // Literal character match
-                    let text_char = if text_idx + 8 <= text.len() {
-                        let chunk = unsafe { std::ptr::read_unaligned(text.as_ptr().add(text_idx) as *const u64) };
-                        Bmi2BextrOps::extract_bits_bextr(chunk, 0, 8) as u8
-                    } else {
-                        text[text_idx]
-                    };
-                    
-                    if text_char != c {
-                        return false;
-                    }
-                    text_idx += 1;
-                    pattern_idx += 1;
-                }
+        while text_idx < text.len() {
+            if pattern_idx < pattern.len() && pattern[pattern_idx] == b'*' {
+                last_star = Some((pattern_idx, text_idx));
+                pattern_idx += 1;
+            } else if pattern_idx < pattern.len() && pattern[pattern_idx] == b'?' {
+                text_idx = next_char(text_idx);
+                pattern_idx += 1;
+            } else if pattern_idx < pattern.len() && pattern[pattern_idx] == text[text_idx] {
+                text_idx += 1;
+                pattern_idx += 1;
+            } else if let Some((star_idx, star_text)) = last_star {
+                // let the last `*` swallow one more character and retry
+                let resumed = next_char(star_text);
+                last_star = Some((star_idx, resumed));
+                text_idx = resumed;
+                pattern_idx = star_idx + 1;
+            } else {
+                return false;
             }
         }
 
-        // Check if we consumed all of pattern
+        // Text exhausted: only trailing `*` may remain in the pattern
         while pattern_idx < pattern.len() && pattern[pattern_idx] == b'*' {
             pattern_idx += 1;
         }
